@@ -71,6 +71,7 @@ type batchSpanProcessor struct {
 	timer      *time.Timer
 	stopWait   sync.WaitGroup
 	stopOnce   sync.Once
+	stopDone   chan struct{}
 	stopCh     chan struct{}
 	stopped    atomic.Bool
 }
@@ -145,6 +146,7 @@ func (bsp *batchSpanProcessor) Shutdown(ctx context.Context) error {
 	bsp.stopOnce.Do(func() {
 		bsp.stopped.Store(true)
 		wait := make(chan struct{})
+		bsp.stopDone = wait
 		go func() {
 			close(bsp.stopCh)
 			bsp.stopWait.Wait()
@@ -162,6 +164,20 @@ func (bsp *batchSpanProcessor) Shutdown(ctx context.Context) error {
 			err = ctx.Err()
 		}
 	})
+	if err == nil {
+		// A call that did not run the shutdown itself (or whose predecessor gave up on
+		// its context) must not report success before the shutdown has completed.
+		select {
+		case <-bsp.stopDone:
+			return nil
+		default:
+		}
+		select {
+		case <-bsp.stopDone:
+		case <-ctx.Done():
+			err = ctx.Err()
+		}
+	}
 	return err
 }
 
